@@ -8,7 +8,6 @@ from geneticengine.evaluation.budget import SearchBudget
 from geneticengine.evaluation.tracker import (
     MultiObjectiveProgressTracker,
     ProgressTracker,
-    SingleObjectiveProgressTracker,
 )
 from geneticengine.solutions.individual import Individual
 from geneticengine.algorithms.gp.operators.combinators import ParallelStep, SequenceStep
@@ -112,10 +111,8 @@ class GeneticProgramming(HeuristicSearch):
                 generation,
             )
 
-        if isinstance(self.tracker, SingleObjectiveProgressTracker):
-            return self.tracker.get_best_individual()
-        elif isinstance(self.tracker, MultiObjectiveProgressTracker):
+        if isinstance(self.tracker, MultiObjectiveProgressTracker):
             # TODO: Think about this API
             return self.tracker.get_best_individuals()[0]
-        else:
-            return None
+        # every tracker answers get_best_individual, a user-written ProgressTracker included (it used to get None)
+        return self.tracker.get_best_individual()
